@@ -15,7 +15,6 @@
 """Utility functions for working with lead sheets."""
 
 import copy
-import itertools
 
 from note_seq import chords_lib
 from note_seq import constants
@@ -100,15 +99,13 @@ class LeadSheet(events_lib.EventSequence):
     Returns:
       Python iterator over (melody, chord) event tuples.
     """
-    return itertools.izip(self._melody, self._chords)
+    return zip(self._melody, self._chords)
 
-  def __getitem__(self, i):
-    """Returns the melody-chord tuple at the given index."""
-    return self._melody[i], self._chords[i]
-
-  def __getslice__(self, i, j):
-    """Returns a LeadSheet object for the given slice range."""
-    return LeadSheet(self._melody[i:j], self._chords[i:j])
+  def __getitem__(self, key):
+    """Returns the melody-chord tuple at an index or a LeadSheet for a slice."""
+    if isinstance(key, slice):
+      return LeadSheet(self._melody[key], self._chords[key])
+    return self._melody[key], self._chords[key]
 
   def __len__(self):
     """How many events (melody-chord tuples) are in this LeadSheet.
